@@ -390,7 +390,9 @@ func (s *LinearState) doFindRules(ctx *Context, event Map) (map[string]Map, erro
 				}
 			}
 		default:
-			panic(fmt.Errorf("rule %#v bad type", rule))
+			// Not a rule body (IndexedState also treats such a fact as a plain fact).
+			Log(WARN, ctx, "LinearState.FindRules", "name", s.Name, "id", id, "warning", fmt.Sprintf("rule %#v bad type", rule))
+			continue
 		}
 	}
 
